@@ -92,6 +92,7 @@ func vNewPersistentRun(out *vOut, capacity int64, block, _, reqSized bool) *vQRu
 	}
 	return &vQRun{
 		out:       out,
+		shutErr3:  true,
 		restoreOp: restoreOp,
 		offerFn: func(ctx context.Context, id int, size int64) error {
 			return pq.Offer(ctx, uint64(id)*1000+uint64(size))
